@@ -4,8 +4,8 @@
     (newSideConn / handleDialSide2).
 
     The translator emits isRejectedDomain and Server.dial statement by
-    statement ([rj_step], [dial_step]); [run_rj] interprets the former, the
-    latter is compared with the deployed list the model was written against.
+    statement ([rj_step], [dial_step]); [run_rj] and [run_dial] interpret
+    them, [decide] is the closed form they are proved equal to.
     Definitions only; proofs are in RouteProofs.v. *)
 From Coq Require Import List NArith Bool String Ascii.
 From Verif Require Import Lib.Bytes Sni.Wire.
@@ -21,9 +21,55 @@ Inductive rj_step :=
 | RjFalse                          (* return false *)
 | RjUnknown (s : string).
 
+(** Server.dial is emitted statement by statement with its conditions and
+    return expressions (not as frozen text): the interpreter [run_dial] below
+    gives the emitted list its meaning, and the theorems about refusals are
+    stated over every list that satisfies a decidable predicate. *)
+
+(** conditions over the two results of `dest, err := s.lookup(domain)` /
+    `ep, err := s.endpoint(...)` *)
+Inductive dcond :=
+| CErrNonNil | CErrNil | CDestNil | CDestNonNil
+| CAnd (a b : dcond) | COr (a b : dcond) | CUnknown (s : string).
+
+(** return nil, <e> *)
+Inductive dret :=
+| XErr                   (* err *)
+| XAnnotErr              (* errcode.Annotatef(err, ...): never nil *)
+| XNotFoundDomain        (* endpointNotFoundError(domain) *)
+| XNewErr (s : string).  (* another freshly made error *)
+
+(** body of a guard, in continuation form *)
+Inductive bstmt :=
+| BEnd                                   (* falls out of the block *)
+| BSetErrNotFound (k : bstmt)            (* err = endpointNotFoundError(domain); k *)
+| BIf (c : dcond) (th k : bstmt)         (* if c { th }; k *)
+| BRet (x : dret)
+| BUnknown (s : string).
+
+(** proxy.hostConn, statement by statement *)
+Inductive host_step :=
+| HDeferCloseFront      (* defer conn.Close() *)
+| HWrap                 (* bc := NewTLSHelloConn(conn) *)
+| HSniff                (* hello, err := bc.HelloInfo() *)
+| HRetIfErr             (* if err != nil { return err } *)
+| HRejectIf             (* if isRejectedDomain(hello.ServerName) { return errNameRejected } *)
+| HAddr                 (* addr := conn.RemoteAddr().String() *)
+| HDial                 (* remote, err := p.dialer.dial(ctx, hello, addr) *)
+| HCloser               (* closer := &closerOnce{Closer: remote} *)
+| HDeferCloseRemote     (* defer closer.Close() *)
+| HJoin                 (* return netutil.JoinConn(ctx, remote, bc) *)
+| HUnknown (s : string).
+
 Inductive dial_step :=
-| DNoLookup | DDomain | DLookup | DLookupErr | DHomeForward
-| DEndpoint | DEndpointErr | DDial | DUnknown (s : string).
+| DNoLookup                              (* if s.lookup == nil { return nil, Internalf(...) } *)
+| DDomain                                (* domain := hello.ServerName *)
+| DLookup                                (* dest, err := s.lookup(domain) *)
+| DGuard (c : dcond) (body : bstmt)      (* if c { body }   (no init, no else) *)
+| DHomeForward                           (* if dest.Home {...} else if fwd := dest.ForwardTCP; fwd != "" {...} *)
+| DEndpoint                              (* ep, err := s.endpoint(dest.Name) *)
+| DDial                                  (* return ep.Dial(ctx, asAddr) *)
+| DUnknown (s : string).
 
 (** * Names are byte strings *)
 
@@ -83,9 +129,16 @@ Definition is_rejected (sufs : list string) (name : bytes) : bool :=
 (** Dest *)
 Record dest := mkDest { d_name : bytes; d_home : bool; d_forward : bytes }.
 
+(** What the configured Lookup returned: a pair (pointer to Dest, error) with four shapes,
+    and the error alone decides whether the name is refused. *)
+Record lookup_res := mkLk {
+  lk_dest : option dest;                   (* None: nil *Dest *)
+  lk_err : bool                            (* err != nil *)
+}.
+
 Record server_cfg := mkCfg {
   has_lookup : bool;                       (* s.lookup != nil *)
-  lookup : bytes -> option dest;           (* None: the lookup returned an error *)
+  lookup : bytes -> lookup_res;
   has_dial_home : bool;                    (* s.dialHome != nil *)
   registry : bytes -> option N             (* s.endpoints: name -> live endpoint (an id) *)
 }.
@@ -93,31 +146,290 @@ Record server_cfg := mkCfg {
 Inductive route :=
 | RRejected                 (* errNameRejected: before any dial *)
 | RNoLookup                 (* "server not accepting" *)
-| RLookupErr                (* the lookup refused the name *)
+| RLookupErr                (* the lookup refused the name: its error is returned *)
+| RNoDest                   (* neither destination nor error: endpointNotFoundError *)
 | RHome                     (* s.dialHome(ctx) *)
 | RHomeMissing              (* Home but no DialHome: endpointNotFoundError *)
 | RForward (addr : bytes)   (* TCP forward *)
 | RNotFound (name : bytes)  (* no endpoint connected under that name *)
-| REndpoint (ep : N) (name : bytes).   (* ep.Dial(ctx, asAddr) on that endpoint *)
+| REndpoint (ep : N) (name : bytes)    (* ep.Dial(ctx, asAddr) on that endpoint *)
+| ROtherErr                 (* some other freshly made error is returned *)
+| RPanic                    (* nil pointer dereference / call of a nil function *)
+| RNilConn                  (* `return nil, err` with err == nil: hostConn joins a nil connection *)
+| RStuck.                   (* a statement the translator does not know *)
 
 Definition nonemptyb (b : bytes) : bool := match b with [] => false | _ => true end.
 
+(** ** The closed form (specification) *)
+
+(** Server.dial *)
+Definition decide_dial (cfg : server_cfg) (sni : bytes) : route :=
+  if negb (has_lookup cfg) then RNoLookup
+  else
+    if lk_err (lookup cfg sni) then RLookupErr
+    else
+      match lk_dest (lookup cfg sni) with
+      | None => RNoDest
+      | Some d =>
+          if d_home d then (if has_dial_home cfg then RHome else RHomeMissing)
+          else if nonemptyb (d_forward d) then RForward (d_forward d)
+          else
+            match registry cfg (d_name d) with
+            | Some ep => REndpoint ep (d_name d)
+            | None => RNotFound (d_name d)
+            end
+      end.
+
 (** hostConn after a successful HelloInfo, followed by Server.dial. *)
 Definition decide (sufs : list string) (cfg : server_cfg) (sni : bytes) : route :=
-  if is_rejected sufs sni then RRejected
-  else if negb (has_lookup cfg) then RNoLookup
-  else
-    match lookup cfg sni with
-    | None => RLookupErr
-    | Some d =>
-        if d_home d then (if has_dial_home cfg then RHome else RHomeMissing)
-        else if nonemptyb (d_forward d) then RForward (d_forward d)
-        else
-          match registry cfg (d_name d) with
-          | Some ep => REndpoint ep (d_name d)
-          | None => RNotFound (d_name d)
+  if is_rejected sufs sni then RRejected else decide_dial cfg sni.
+
+(** ** The emitted statements, interpreted *)
+
+(** where the current value of `err` came from *)
+Inductive errsrc := FromLookup | FromEndpoint | NotFoundDom | NewErr.
+
+Definition is_some {A} (o : option A) : bool := match o with Some _ => true | None => false end.
+
+(** conditions see only whether dest and err are nil *)
+Fixpoint eval_cond (dnil enil : bool) (c : dcond) : option bool :=
+  match c with
+  | CErrNonNil => Some (negb enil)
+  | CErrNil => Some enil
+  | CDestNil => Some dnil
+  | CDestNonNil => Some (negb dnil)
+  | CAnd a b => match eval_cond dnil enil a, eval_cond dnil enil b with
+                | Some x, Some y => Some (x && y) | _, _ => None end
+  | COr a b => match eval_cond dnil enil a, eval_cond dnil enil b with
+               | Some x, Some y => Some (x || y) | _, _ => None end
+  | CUnknown _ => None
+  end.
+
+Inductive bres :=
+| BFall (e : option errsrc)     (* fell out of the block; err is now e *)
+| BExit (e : option errsrc)     (* return nil, <e>;  None: a nil error *)
+| BStuck.
+
+Fixpoint run_body (dnil : bool) (e : option errsrc) (b : bstmt) : bres :=
+  match b with
+  | BEnd => BFall e
+  | BSetErrNotFound k => run_body dnil (Some NotFoundDom) k
+  | BIf c th k =>
+      match eval_cond dnil (negb (is_some e)) c with
+      | None => BStuck
+      | Some true => match run_body dnil e th with
+                     | BFall e' => run_body dnil e' k
+                     | r => r
+                     end
+      | Some false => run_body dnil e k
+      end
+  | BRet XErr => BExit e
+  | BRet XAnnotErr => BExit (Some (match e with Some x => x | None => NewErr end))
+  | BRet XNotFoundDomain => BExit (Some NotFoundDom)
+  | BRet (XNewErr _) => BExit (Some NewErr)
+  | BUnknown _ => BStuck
+  end.
+
+Record dstate := mkSt {
+  st_looked : bool;                 (* dest, err are declared *)
+  st_dest : option dest;
+  st_err : option errsrc;
+  st_ep : option (option N)         (* None: ep not declared; Some None: nil ep *)
+}.
+
+Definition st0 : dstate := mkSt false None None None.
+
+Definition route_of_exit (st : dstate) (e : option errsrc) : route :=
+  match e with
+  | None => RNilConn
+  | Some FromLookup => RLookupErr
+  | Some FromEndpoint => RNotFound (match st_dest st with Some d => d_name d | None => [] end)
+  | Some NotFoundDom => RNoDest
+  | Some NewErr => ROtherErr
+  end.
+
+Fixpoint run_dial (cfg : server_cfg) (sni : bytes) (steps : list dial_step) (st : dstate) : route :=
+  match steps with
+  | [] => RStuck
+  | DNoLookup :: r => if negb (has_lookup cfg) then RNoLookup else run_dial cfg sni r st
+  | DDomain :: r => run_dial cfg sni r st
+  | DLookup :: r =>
+      if has_lookup cfg then
+        run_dial cfg sni r (mkSt true (lk_dest (lookup cfg sni))
+                              (if lk_err (lookup cfg sni) then Some FromLookup else None) (st_ep st))
+      else RPanic
+  | DGuard c b :: r =>
+      if negb (st_looked st) then RStuck else
+      let dnil := negb (is_some (st_dest st)) in
+      match eval_cond dnil (negb (is_some (st_err st))) c with
+      | None => RStuck
+      | Some false => run_dial cfg sni r st
+      | Some true =>
+          match run_body dnil (st_err st) b with
+          | BFall e => run_dial cfg sni r (mkSt true (st_dest st) e (st_ep st))
+          | BExit e => route_of_exit st e
+          | BStuck => RStuck
           end
-    end.
+      end
+  | DHomeForward :: r =>
+      if negb (st_looked st) then RStuck else
+      match st_dest st with
+      | None => RPanic
+      | Some d =>
+          if d_home d then (if has_dial_home cfg then RHome else RHomeMissing)
+          else if nonemptyb (d_forward d) then RForward (d_forward d)
+          else run_dial cfg sni r st
+      end
+  | DEndpoint :: r =>
+      if negb (st_looked st) then RStuck else
+      match st_dest st with
+      | None => RPanic
+      | Some d =>
+          let ep := registry cfg (d_name d) in
+          run_dial cfg sni r
+            (mkSt true (st_dest st) (match ep with Some _ => None | None => Some FromEndpoint end) (Some ep))
+      end
+  | DDial :: _ =>
+      match st_ep st, st_dest st with
+      | Some (Some ep), Some d => REndpoint ep (d_name d)
+      | Some _, _ => RPanic
+      | None, _ => RStuck
+      end
+  | DUnknown _ :: _ => RStuck
+  end.
+
+(** hostConn followed by the emitted Server.dial *)
+Definition run_host (rj : list rj_step) (steps : list dial_step) (cfg : server_cfg) (sni : bytes) : route :=
+  match run_rj rj sni with
+  | None => RStuck
+  | Some true => RRejected
+  | Some false => run_dial cfg sni steps st0
+  end.
+
+(** ** What a route means for the connection *)
+
+(** the connection's bytes are handed to some destination *)
+Definition served (r : route) : bool :=
+  match r with RHome | RForward _ | REndpoint _ _ => true | _ => false end.
+
+(** hostConn returns an error and closes the front connection: nothing was dialled *)
+Definition refusal (r : route) : bool :=
+  match r with
+  | RRejected | RNoLookup | RLookupErr | RNoDest | RHomeMissing | RNotFound _ | ROtherErr => true
+  | _ => false
+  end.
+
+(** the goroutine (and with it the process) crashes, or the model cannot tell *)
+Definition crashes (r : route) : bool :=
+  match r with RPanic | RNilConn | RStuck => true | _ => false end.
+
+(** ** hostConn: from the accepted front connection to the join *)
+
+(** What happened to one front connection. *)
+Record front_out := mkOut {
+  fo_front_closed : bool;         (* conn.Close() ran (deferred, or inside JoinConn) *)
+  fo_dial : option route;         (* the dialer was called, with this result *)
+  fo_joined : bool;               (* JoinConn(remote, bc) ran: bytes flow to the dialled destination *)
+  fo_remote_closed : bool         (* a connection that was dialled is closed again on return *)
+}.
+
+Inductive front_res := FOut (o : front_out) | FCrash | FStuck.
+
+Record hstate := mkHs {
+  hs_defer_front : bool;
+  hs_sniffed : option (option bytes);   (* None: not yet; Some None: HelloInfo failed *)
+  hs_err : bool;
+  hs_dial : option route;
+  hs_remote : bool;                     (* remote is a live connection *)
+  hs_closer : bool;
+  hs_defer_remote : bool
+}.
+
+Definition hs0 : hstate := mkHs false None false None false false false.
+
+Definition ret_out (h : hstate) (joined : bool) : front_res :=
+  FOut (mkOut (hs_defer_front h || joined) (hs_dial h) joined
+              (hs_remote h && (hs_defer_remote h || joined))).
+
+(** [sniff]: what HelloInfo returns (None: an error); [dial_ok]: whether the
+    dial of a route that selects a destination succeeds (the endpoint accepts,
+    the side connection arrives, the home / forward target answers). *)
+Fixpoint run_front (rj : list rj_step) (dsteps : list dial_step) (cfg : server_cfg)
+         (sniff : option bytes) (dial_ok : bool) (steps : list host_step) (h : hstate) : front_res :=
+  match steps with
+  | [] => FStuck
+  | HDeferCloseFront :: r =>
+      run_front rj dsteps cfg sniff dial_ok r
+        (mkHs true (hs_sniffed h) (hs_err h) (hs_dial h) (hs_remote h) (hs_closer h) (hs_defer_remote h))
+  | HWrap :: r | HAddr :: r => run_front rj dsteps cfg sniff dial_ok r h
+  | HSniff :: r =>
+      run_front rj dsteps cfg sniff dial_ok r
+        (mkHs (hs_defer_front h) (Some sniff) (negb (is_some sniff)) (hs_dial h) (hs_remote h)
+              (hs_closer h) (hs_defer_remote h))
+  | HRetIfErr :: r =>
+      match hs_sniffed h with
+      | None => FStuck
+      | Some _ => if hs_err h then ret_out h false else run_front rj dsteps cfg sniff dial_ok r h
+      end
+  | HRejectIf :: r =>
+      match hs_sniffed h with
+      | Some (Some name) =>
+          match run_rj rj name with
+          | Some true => ret_out h false
+          | Some false => run_front rj dsteps cfg sniff dial_ok r h
+          | None => FStuck
+          end
+      | Some None => FCrash          (* hello is nil *)
+      | None => FStuck
+      end
+  | HDial :: r =>
+      match hs_sniffed h with
+      | Some (Some name) =>
+          let rt := run_dial cfg name dsteps st0 in
+          if crashes rt then FCrash
+          else
+            let ok := served rt && dial_ok in
+            run_front rj dsteps cfg sniff dial_ok r
+              (mkHs (hs_defer_front h) (hs_sniffed h) (negb ok) (Some rt) ok (hs_closer h) (hs_defer_remote h))
+      | Some None => FCrash
+      | None => FStuck
+      end
+  | HCloser :: r =>
+      run_front rj dsteps cfg sniff dial_ok r
+        (mkHs (hs_defer_front h) (hs_sniffed h) (hs_err h) (hs_dial h) (hs_remote h) true (hs_defer_remote h))
+  | HDeferCloseRemote :: r =>
+      if hs_closer h then
+        run_front rj dsteps cfg sniff dial_ok r
+          (mkHs (hs_defer_front h) (hs_sniffed h) (hs_err h) (hs_dial h) (hs_remote h) true true)
+      else FStuck
+  | HJoin :: _ =>
+      match hs_dial h with
+      | None => FStuck
+      | Some _ => if hs_remote h then ret_out h true else FCrash   (* JoinConn on a nil connection *)
+      end
+  | HUnknown _ :: _ => FStuck
+  end.
+
+(** ** Decidable predicates on emitted lists *)
+
+(** Whatever dest is, with err != nil the guard fires ... *)
+Definition cond_when_err (c : dcond) : bool :=
+  forallb (fun dnil => match eval_cond dnil false c with Some true => true | _ => false end) [true; false].
+
+(** ... and its body returns a non-nil error. *)
+Definition refusing_body (b : bstmt) : bool :=
+  forallb (fun dnil => match run_body dnil (Some FromLookup) b with BExit (Some _) => true | _ => false end)
+          [true; false].
+
+(** The lookup is followed immediately by a guard that returns an error
+    whenever the lookup returned one; nothing but the lookup-presence test and
+    the domain assignment precedes it. *)
+Fixpoint lookup_err_guarded (steps : list dial_step) : bool :=
+  match steps with
+  | DNoLookup :: r | DDomain :: r => lookup_err_guarded r
+  | DLookup :: DGuard c b :: _ => cond_when_err c && refusing_body b
+  | _ => false
+  end.
 
 (** The endpoints that get a Dial call for this connection (each entry:
     endpoint id).  Everything the connection's bytes can reach afterwards goes
@@ -169,7 +481,12 @@ Definition deployed_rj_steps : list rj_step :=
   [ RjEmpty; RjIP; RjSuffixes deployed_suffixes; RjFalse ].
 
 Definition deployed_dial_steps : list dial_step :=
-  [ DNoLookup; DDomain; DLookup; DLookupErr; DHomeForward; DEndpoint; DEndpointErr; DDial ].
+  [ DNoLookup; DDomain; DLookup;
+    DGuard CErrNonNil (BRet XErr);
+    DGuard CDestNil (BRet XNotFoundDomain);
+    DHomeForward; DEndpoint;
+    DGuard CErrNonNil (BRet XAnnotErr);
+    DDial ].
 
 (** hostConn: callee/arity in source order; the rejection test precedes the
     only dial, and the connection handed to JoinConn is the dialled one. *)
@@ -178,6 +495,18 @@ Definition deployed_host_conn_calls : list string :=
     "conn.RemoteAddr().String/0"; "conn.RemoteAddr/0"; "p.dialer.dial/3";
     "closer.Close/0"; "netutil.JoinConn/3" ].
 
+Definition deployed_host_steps : list host_step :=
+  [ HDeferCloseFront; HWrap; HSniff; HRetIfErr; HRejectIf; HAddr; HDial; HRetIfErr;
+    HCloser; HDeferCloseRemote; HJoin ].
+
+Definition host_step_eqb (a b : host_step) : bool :=
+  match a, b with
+  | HDeferCloseFront, HDeferCloseFront | HWrap, HWrap | HSniff, HSniff | HRetIfErr, HRetIfErr
+  | HRejectIf, HRejectIf | HAddr, HAddr | HDial, HDial | HCloser, HCloser
+  | HDeferCloseRemote, HDeferCloseRemote | HJoin, HJoin => true
+  | _, _ => false
+  end.
+
 Definition rj_step_eqb (a b : rj_step) : bool :=
   match a, b with
   | RjEmpty, RjEmpty | RjIP, RjIP | RjFalse, RjFalse => true
@@ -185,10 +514,32 @@ Definition rj_step_eqb (a b : rj_step) : bool :=
   | _, _ => false
   end.
 
+Fixpoint dcond_eqb (a b : dcond) : bool :=
+  match a, b with
+  | CErrNonNil, CErrNonNil | CErrNil, CErrNil | CDestNil, CDestNil | CDestNonNil, CDestNonNil => true
+  | CAnd a1 a2, CAnd b1 b2 | COr a1 a2, COr b1 b2 => dcond_eqb a1 b1 && dcond_eqb a2 b2
+  | _, _ => false
+  end.
+
+Definition dret_eqb (a b : dret) : bool :=
+  match a, b with
+  | XErr, XErr | XAnnotErr, XAnnotErr | XNotFoundDomain, XNotFoundDomain => true
+  | _, _ => false
+  end.
+
+Fixpoint bstmt_eqb (a b : bstmt) : bool :=
+  match a, b with
+  | BEnd, BEnd => true
+  | BSetErrNotFound k, BSetErrNotFound k' => bstmt_eqb k k'
+  | BIf c t k, BIf c' t' k' => dcond_eqb c c' && bstmt_eqb t t' && bstmt_eqb k k'
+  | BRet x, BRet y => dret_eqb x y
+  | _, _ => false
+  end.
+
 Definition dial_step_eqb (a b : dial_step) : bool :=
   match a, b with
   | DNoLookup, DNoLookup | DDomain, DDomain | DLookup, DLookup
-  | DLookupErr, DLookupErr | DHomeForward, DHomeForward | DEndpoint, DEndpoint
-  | DEndpointErr, DEndpointErr | DDial, DDial => true
+  | DHomeForward, DHomeForward | DEndpoint, DEndpoint | DDial, DDial => true
+  | DGuard c x, DGuard c' x' => dcond_eqb c c' && bstmt_eqb x x'
   | _, _ => false
   end.
